@@ -21,6 +21,10 @@ CONSTANTS Cap,          \* pipe capacity
           Drain,        \* TRUE: the parent drains the pipes after the child has exited (the code); FALSE: legacy
           CloseAll,     \* TRUE: pipe ends still open at return are closed (the code); FALSE: legacy (descriptor leak)
           Timeout,      \* TRUE: run_process was given a deadline (timeout_usecs > 0)
+          FirstProg,    \* <<>>, or the program of a FIRST child that is still running when the Subprocess object is re-assigned
+                        \* (sp = Subprocess(cmd)): operator=(Subprocess&&) must end and reap it before the run modelled here
+          ReapOnAssign, \* TRUE: move assignment applies the destructor's protocol to the replaced child (the code);
+                        \* FALSE: regression model - the pid is simply overwritten
           DtorSig,      \* signal ~Subprocess sends to a child that is still running: "KILL" (the code); "TERM": regression
                         \* model - a child that ignores SIGTERM is then waited for for ever
           Escalate      \* TRUE: a child that survives SIGTERM gets SIGKILL at the second deadline (the code);
@@ -33,30 +37,35 @@ VARIABLES pin, pout, perr,   \* pipe buffers
           cstate,            \* "running" | "zombie" | "reaped"
           code,              \* exit code the child chose
           ppc, ready, sent, acc, status, threw,
+          phase,             \* 1 while the first child (FirstProg) is the object's child, 2 for the run proper
+          orphan,            \* TRUE once a replaced child was left without anybody to reap it
           tm                 \* deadline handling: [timer: "off" | "armed" | "expired", termed: SIGTERM already sent?,
                              \*                     ign: child ignores SIGTERM?, sig: signal pending for the child]
-vars == <<pin, pout, perr, cfd, pfd, cpc, cprog, chold, cgot, cwrote, cstate, code, ppc, ready, sent, acc, status, threw, tm>>
+vars == <<pin, pout, perr, cfd, pfd, cpc, cprog, chold, cgot, cwrote, cstate, code, ppc, ready, sent, acc, status, threw, tm, phase, orphan>>
 
 Streams == {"out", "err"}
 Buf(s) == IF s = "out" THEN pout ELSE perr
 Min(a, b) == IF a < b THEN a ELSE b
 
+CurProg == IF phase = 1 THEN FirstProg ELSE Prog
+Tm0 == [timer |-> IF Timeout THEN "armed" ELSE "off", termed |-> FALSE, ign |-> FALSE, sig |-> "none"]
 Init ==
+  /\ phase = (IF FirstProg = <<>> THEN 2 ELSE 1) /\ orphan = FALSE
   /\ pin = <<>> /\ pout = <<>> /\ perr = <<>>
   /\ cfd = [in |-> TRUE, out |-> TRUE, err |-> TRUE]
   /\ pfd = [in |-> TRUE, out |-> TRUE, err |-> TRUE]
   /\ cpc = 1 /\ cprog = 0 /\ chold = 0 /\ cgot = <<>> /\ cwrote = [out |-> <<>>, err |-> <<>>]
   /\ cstate = "running" /\ code = -1
-  /\ ppc = "start" /\ ready = {} /\ sent = 0 /\ acc = [out |-> <<>>, err |-> <<>>] /\ status = -1 /\ threw = FALSE
-  /\ tm = [timer |-> IF Timeout THEN "armed" ELSE "off", termed |-> FALSE, ign |-> FALSE, sig |-> "none"]
+  /\ ppc = (IF FirstProg = <<>> THEN "start" ELSE "assign") /\ ready = {} /\ sent = 0 /\ acc = [out |-> <<>>, err |-> <<>>] /\ status = -1 /\ threw = FALSE
+  /\ tm = (IF FirstProg = <<>> THEN Tm0 ELSE [Tm0 EXCEPT !.timer = "off"])
 
 (* ------------------------------------------------------------------ child *)
-Ins == Prog[cpc]
-CUnch == UNCHANGED <<pfd, ppc, ready, sent, acc, status, threw, tm>>
+Ins == CurProg[cpc]
+CUnch == UNCHANGED <<pfd, ppc, ready, sent, acc, status, threw, tm, phase, orphan>>
 NextByte(s) == Len(cwrote[s]) + 1            \* bytes of a stream are numbered 1, 2, 3, ...
 
 ChildWrite ==            \* W(stream, n): one write() call moves as much as fits, at least one byte
-  /\ cstate = "running" /\ cpc <= Len(Prog) /\ Ins.op = "W"
+  /\ cstate = "running" /\ cpc <= Len(CurProg) /\ Ins.op = "W"
   /\ LET s == Ins.s
          space == Cap - Len(Buf(s))
          left == Ins.n - cprog IN
@@ -70,7 +79,7 @@ ChildWrite ==            \* W(stream, n): one write() call moves as much as fits
   /\ UNCHANGED <<pin, cfd, chold, cgot, cstate, code>> /\ CUnch
 
 ChildRead ==             \* R(n) reads up to n bytes once; RAll reads until end of input
-  /\ cstate = "running" /\ cpc <= Len(Prog) /\ Ins.op \in {"R", "RAll"}
+  /\ cstate = "running" /\ cpc <= Len(CurProg) /\ Ins.op \in {"R", "RAll"}
   /\ cfd.in
   /\ IF pin # <<>>
        THEN \E k \in 1..(IF Ins.op = "R" THEN Min(Ins.n, Len(pin)) ELSE Len(pin)) :
@@ -81,7 +90,7 @@ ChildRead ==             \* R(n) reads up to n bytes once; RAll reads until end 
   /\ UNCHANGED <<pout, perr, cfd, cprog, chold, cwrote, cstate, code>> /\ CUnch
 
 ChildCat ==              \* copy stdin to stdout byte by byte until end of input
-  /\ cstate = "running" /\ cpc <= Len(Prog) /\ Ins.op = "Cat"
+  /\ cstate = "running" /\ cpc <= Len(CurProg) /\ Ins.op = "Cat"
   /\ IF chold # 0
        THEN /\ Len(pout) < Cap /\ pfd.out
             /\ pout' = Append(pout, NextByte("out")) /\ cwrote' = [cwrote EXCEPT !.out = Append(@, NextByte("out"))]
@@ -93,21 +102,21 @@ ChildCat ==              \* copy stdin to stdout byte by byte until end of input
   /\ UNCHANGED <<perr, cfd, cprog, cstate, code>> /\ CUnch
 
 ChildClose ==
-  /\ cstate = "running" /\ cpc <= Len(Prog) /\ Ins.op \in {"CloseIn", "CloseOut"}
+  /\ cstate = "running" /\ cpc <= Len(CurProg) /\ Ins.op \in {"CloseIn", "CloseOut"}
   /\ cfd' = IF Ins.op = "CloseIn" THEN [cfd EXCEPT !.in = FALSE] ELSE [cfd EXCEPT !.out = FALSE]
   /\ cpc' = cpc + 1
   /\ UNCHANGED <<pin, pout, perr, cprog, chold, cgot, cwrote, cstate, code>> /\ CUnch
 
 ChildExit ==             \* Exit(code): every descriptor of the child is closed, the child becomes a zombie
-  /\ cstate = "running" /\ cpc <= Len(Prog) /\ Ins.op = "Exit"
+  /\ cstate = "running" /\ cpc <= Len(CurProg) /\ Ins.op = "Exit"
   /\ cstate' = "zombie" /\ code' = Ins.code
   /\ cfd' = [in |-> FALSE, out |-> FALSE, err |-> FALSE]
   /\ UNCHANGED <<pin, pout, perr, cpc, cprog, chold, cgot, cwrote>> /\ CUnch
 
 ChildIgnTerm ==          \* signal(SIGTERM, SIG_IGN)
-  /\ cstate = "running" /\ cpc <= Len(Prog) /\ Ins.op = "IgnTerm"
+  /\ cstate = "running" /\ cpc <= Len(CurProg) /\ Ins.op = "IgnTerm"
   /\ tm' = [tm EXCEPT !.ign = TRUE] /\ cpc' = cpc + 1
-  /\ UNCHANGED <<pin, pout, perr, cfd, pfd, cprog, chold, cgot, cwrote, cstate, code, ppc, ready, sent, acc, status, threw>>
+  /\ UNCHANGED <<pin, pout, perr, cfd, pfd, cprog, chold, cgot, cwrote, cstate, code, ppc, ready, sent, acc, status, threw, phase, orphan>>
 (* "Hang" has no action: the child blocks for ever (a child that outlives every deadline) *)
 
 Child == ChildWrite \/ ChildRead \/ ChildCat \/ ChildClose \/ ChildExit \/ ChildIgnTerm
@@ -116,18 +125,18 @@ Child == ChildWrite \/ ChildRead \/ ChildCat \/ ChildClose \/ ChildExit \/ Child
 TimerFire ==             \* the deadline passes (at any moment while it is armed)
   /\ tm.timer = "armed" /\ ppc \notin {"done", "threw", "gone"}
   /\ tm' = [tm EXCEPT !.timer = "expired"]
-  /\ UNCHANGED <<pin, pout, perr, cfd, pfd, cpc, cprog, chold, cgot, cwrote, cstate, code, ppc, ready, sent, acc, status, threw>>
+  /\ UNCHANGED <<pin, pout, perr, cfd, pfd, cpc, cprog, chold, cgot, cwrote, cstate, code, ppc, ready, sent, acc, status, threw, phase, orphan>>
 SignalDeliver ==         \* a pending signal reaches the child: SIGKILL always ends it, SIGTERM unless ignored
   /\ tm.sig # "none" /\ cstate = "running"
   /\ tm' = [tm EXCEPT !.sig = "none"]
   /\ IF tm.sig = "KILL" \/ ~tm.ign
        THEN cstate' = "zombie" /\ code' = (IF tm.sig = "KILL" THEN 9 ELSE 15) /\ cfd' = [in |-> FALSE, out |-> FALSE, err |-> FALSE]
        ELSE UNCHANGED <<cstate, code, cfd>>
-  /\ UNCHANGED <<pin, pout, perr, pfd, cpc, cprog, chold, cgot, cwrote, ppc, ready, sent, acc, status, threw>>
+  /\ UNCHANGED <<pin, pout, perr, pfd, cpc, cprog, chold, cgot, cwrote, ppc, ready, sent, acc, status, threw, phase, orphan>>
 Kernel == TimerFire \/ SignalDeliver
 
 (* ------------------------------------------------------------------ parent *)
-PUnch == UNCHANGED <<cfd, cpc, cprog, chold, cgot, cwrote, code, tm>>
+PUnch == UNCHANGED <<cfd, cpc, cprog, chold, cgot, cwrote, code, tm, phase, orphan>>
 InRegistered == pfd.in /\ sent < Payload
 (* descriptors poll() would report: readable data or hang-up on out/err, room (or a vanished reader) on in *)
 (* communicate() services stdout only: the stderr pipe stays with the Subprocess object, unread *)
@@ -191,7 +200,7 @@ P_Deadline ==            \* end of a loop iteration: past the deadline, request 
        THEN tm' = [tm EXCEPT !.timer = "armed", !.termed = TRUE,
                              !.sig = IF tm.termed /\ Escalate THEN "KILL" ELSE IF tm.sig = "KILL" THEN "KILL" ELSE "TERM"]
        ELSE tm' = tm
-  /\ UNCHANGED <<pin, pout, perr, cfd, pfd, cpc, cprog, chold, cgot, cwrote, cstate, code, ready, sent, acc, status, threw>>
+  /\ UNCHANGED <<pin, pout, perr, cfd, pfd, cpc, cprog, chold, cgot, cwrote, cstate, code, ready, sent, acc, status, threw, phase, orphan>>
 
 P_Drain ==               \* after the child was reaped: read what is left in each pipe that is still open
   /\ ppc = "drain"
@@ -214,14 +223,31 @@ P_DtorTry ==
   /\ IF cstate = "zombie"
        THEN cstate' = "reaped" /\ tm' = tm /\ ppc' = (IF threw THEN "threw" ELSE "gone")
        ELSE cstate' = cstate /\ tm' = [tm EXCEPT !.sig = IF tm.sig = "KILL" THEN "KILL" ELSE DtorSig] /\ ppc' = "dtorwait"
-  /\ UNCHANGED <<pin, pout, perr, cfd, pfd, cpc, cprog, chold, cgot, cwrote, code, ready, sent, acc, status, threw>>
+  /\ UNCHANGED <<pin, pout, perr, cfd, pfd, cpc, cprog, chold, cgot, cwrote, code, ready, sent, acc, status, threw, phase, orphan>>
 P_DtorWait ==            \* blocking waitpid
   /\ ppc = "dtorwait" /\ cstate = "zombie"
   /\ cstate' = "reaped" /\ ppc' = (IF threw THEN "threw" ELSE "gone")
-  /\ UNCHANGED <<pin, pout, perr, cfd, pfd, cpc, cprog, chold, cgot, cwrote, code, ready, sent, acc, status, threw, tm>>
+  /\ UNCHANGED <<pin, pout, perr, cfd, pfd, cpc, cprog, chold, cgot, cwrote, code, ready, sent, acc, status, threw, tm, phase, orphan>>
+
+(* operator=(Subprocess&&) on an object whose first child may still be running: the destructor's protocol for the child
+   that is replaced (non-blocking wait, else SIGKILL and a blocking wait), then the new child with fresh pipes *)
+NewChild(orph) ==
+  /\ pin' = <<>> /\ pout' = <<>> /\ perr' = <<>>
+  /\ cfd' = [in |-> TRUE, out |-> TRUE, err |-> TRUE] /\ pfd' = [in |-> TRUE, out |-> TRUE, err |-> TRUE]
+  /\ cpc' = 1 /\ cprog' = 0 /\ chold' = 0 /\ cgot' = <<>> /\ cwrote' = [out |-> <<>>, err |-> <<>>]
+  /\ cstate' = "running" /\ code' = -1
+  /\ ppc' = "start" /\ ready' = {} /\ sent' = 0 /\ acc' = [out |-> <<>>, err |-> <<>>] /\ status' = -1 /\ threw' = FALSE
+  /\ tm' = Tm0 /\ phase' = 2 /\ orphan' = orph
+P_Assign ==
+  /\ ppc = "assign"
+  /\ IF ~ReapOnAssign THEN NewChild(TRUE)                    \* regression model: nobody will ever wait for the first child
+     ELSE IF cstate = "zombie" THEN NewChild(FALSE)          \* waitpid(WNOHANG) reaped it
+     ELSE /\ tm' = [tm EXCEPT !.sig = "KILL"] /\ ppc' = "assignwait"
+          /\ UNCHANGED <<pin, pout, perr, cfd, pfd, cpc, cprog, chold, cgot, cwrote, cstate, code, ready, sent, acc, status, threw, phase, orphan>>
+P_AssignWait == ppc = "assignwait" /\ cstate = "zombie" /\ NewChild(FALSE)
 
 Parent == P_Start \/ P_Wait \/ P_Poll \/ (\E s \in Streams : P_HandleRead(s)) \/ P_HandleWrite \/ P_HandleDone
-          \/ P_Deadline \/ P_Drain \/ P_Close \/ P_DtorTry \/ P_DtorWait
+          \/ P_Deadline \/ P_Drain \/ P_Close \/ P_DtorTry \/ P_DtorWait \/ P_Assign \/ P_AssignWait
 
 Next == Child \/ Parent \/ Kernel
 Spec == Init /\ [][Next]_vars
@@ -233,7 +259,7 @@ OutputComplete == ppc = "done" =>
                     /\ acc.out = cwrote.out
                     /\ (Variant = "run_process" => acc.err = cwrote.err)
 StatusExact == ppc = "done" => status = code /\ cstate = "reaped"
-Reaped == Finished => cstate = "reaped"
+Reaped == Finished => (cstate = "reaped" /\ ~orphan)
 AllFdsClosed == (Finished /\ Variant = "run_process") => ~pfd.in /\ ~pfd.out /\ ~pfd.err
 (* a child that reads its input to the end received the whole payload, in order *)
 ReadsAll == \E i \in DOMAIN Prog : Prog[i].op \in {"RAll", "Cat"}
